@@ -2085,6 +2085,7 @@ class ContractionTree:
                         "select": rng.choice(subtree_select),
                         "weight_pwr": rng.choice(subtree_weight_pwr),
                         "weight_what": rng.choice(subtree_weight_what),
+                        "seed": rng.randint(0, 2**32 - 1),
                     }
                     for _ in range(num_trees)
                 ]
